@@ -7,6 +7,7 @@ import (
 	"math/rand"
 	"sort"
 	"strconv"
+	"strings"
 
 	"github.com/go-spatial/geom"
 	"github.com/go-spatial/geom/slippy"
@@ -260,7 +261,9 @@ func tmsAddrTrace(args []string) int {
 	if t, err := tms20.LoadJSONTileMatrixSet(repoFile("tms20/testdata/SomethingWithBottomLeftAndLatLonAndDoubleHeight.json")); err == nil {
 		sets = append(sets, setT{"testdata/BottomLeftLatLon", t})
 	}
-	sets = append(sets, setT{"syn-bottomleft", newSynGrid(2, 6, -1024.5, 2048.25, "bottomLeft", 4).tms}, setT{"syn-topleft", newSynGrid(4, 8, 100, 100, "topLeft", 3).tms})
+	sets = append(sets, setT{"syn-bottomleft", newSynGrid(2, 6, -1024.5, 2048.25, "bottomLeft", 4).tms}, setT{"syn-topleft", newSynGrid(4, 8, 100, 100, "topLeft", 3).tms},
+		setT{"syn-swapped-bottomleft", newSynGridAxes(1, 4, 1000, 2000.5, "bottomLeft", 3, true).tms},
+		setT{"syn-swapped-topleft", newSynGridAxes(2, 5, -300.25, 64, "topLeft", 3, true).tms})
 	for _, s := range sets {
 		for _, id := range sortedIDs(s.t) {
 			tm := s.t.TileMatrices[id]
@@ -272,10 +275,18 @@ func tmsAddrTrace(args []string) int {
 			for k := 0; k < *samples; k++ {
 				tiles = append(tiles, [2]int{rng.Intn(w), rng.Intn(h)})
 			}
-			originXY, err := tms20.ToXYPoint(&s.t, *tm.PointOfOrigin)
-			if err != nil {
-				out.put(map[string]any{"set": s.name, "z": id, "error": err.Error()})
-				continue
+			// the origin in x,y order from the document itself: pointOfOrigin is written in the axis order the document's own
+			// orderedAxes announce (northing / latitude first = swapped); NOT taken from tms20.ToXYPoint, which is under test
+			originXY := [2]float64{(*tm.PointOfOrigin)[0], (*tm.PointOfOrigin)[1]}
+			swapped := false
+			if g, gerr := loadDocGeom(s.name); gerr == nil {
+				swapped = g.LatLon
+			} else if len(s.t.OrderedAxes) >= 1 {
+				a := strings.ToLower(s.t.OrderedAxes[0])
+				swapped = a == "y" || a == "n" || a == "lat" || strings.HasPrefix(a, "north")
+			}
+			if swapped {
+				originXY[0], originXY[1] = originXY[1], originXY[0]
 			}
 			ts := float64(tm.TileWidth) * tm.CellSize
 			tsy := float64(tm.TileHeight) * tm.CellSize
